@@ -311,6 +311,20 @@ def run(ctx):
         else:
             f = cores[ref_t][key]
             ctx.add(RULE, f, 'sibling(%s)' % key[1], 'ok', 'identical canonical form in the %s copies' % '/'.join(fams[t] for t in have), props_of(prog, f, c09), f.line, {'copies': [fams[t] for t in have]})
+            # the copies are the same code: their debug assertions must be the same too (a wrong assertion panics in debug
+            # builds within the contract)
+            dbg = {t: canon_fn(cores[t][key].hir, 'num', keep_dbg=True) for t in have}
+            if any(dbg[t] != canon_fn(cores[t][key].hir, 'num') for t in have):
+                groups = {}
+                for t in have:
+                    groups.setdefault(repr(dbg[t]), []).append(t)
+                if len(groups) > 1:
+                    odd = sorted(groups.values(), key=len)[0]
+                    fo = cores[odd[0]][key]
+                    ctx.add(RULE, fo, 'assertions(%s)' % key[1], 'violation', 'the copies of %s are identical except for their debug assertions: the assertion in the %s copy tests something else than in the other cop%s (first difference at %s); an assertion that fails on a valid tree panics in debug builds' % (key[1], fams[odd[0]], 'ies' if len(have) > 2 else 'y', first_diff(dbg[[t for t in have if t not in odd][0]], dbg[odd[0]])),
+                            ['C10'], fo.line)
+                else:
+                    ctx.add(RULE, f, 'assertions(%s)' % key[1], 'ok', 'debug assertions agree in the %s copies' % '/'.join(fams[t] for t in have), ['C10'], f.line)
     # ---- 2. mirror pairs --------------------------------------------------------------------------
     n_pairs = 0
     for t in trees:
